@@ -1,0 +1,100 @@
+//! C01: run the backend's candidate-set algebra, search and exists on arbitrary resolved
+//! filter trees under a chosen index layout.
+
+use crate::be::{BackendTransaction, IdList, IdxKey, Limits};
+use crate::filter::{Filter, FilterResolved, FilterValidResolved};
+use crate::prelude::*;
+use crate::server::QueryServerTransaction;
+
+/// Public mirror of `IdList` with plain id vectors (ascending).
+#[derive(Debug, Clone, PartialEq, Eq)]
+pub enum HookIdl {
+    AllIds,
+    Partial(Vec<u64>),
+    PartialThreshold(Vec<u64>),
+    Indexed(Vec<u64>),
+}
+
+fn conv(idl: IdList) -> HookIdl {
+    match idl {
+        IdList::AllIds => HookIdl::AllIds,
+        IdList::Partial(s) => HookIdl::Partial(s.into_iter().collect()),
+        IdList::PartialThreshold(s) => HookIdl::PartialThreshold(s.into_iter().collect()),
+        IdList::Indexed(s) => HookIdl::Indexed(s.into_iter().collect()),
+    }
+}
+
+fn wrap(f: &FilterResolved) -> Filter<FilterValidResolved> {
+    Filter::verif_from_resolved(f.clone())
+}
+
+/// The real `filter2idl` on `f` with threshold `thres`.
+pub fn be_filter2idl(
+    qs: &mut QueryServerWriteTransaction<'_>,
+    f: &FilterResolved,
+    thres: usize,
+) -> Result<HookIdl, OperationError> {
+    qs.get_be_txn().filter2idl(f, thres).map(|(idl, _)| conv(idl))
+}
+
+/// The real backend `search`, returning backend ids (ascending).
+pub fn be_search(
+    qs: &mut QueryServerWriteTransaction<'_>,
+    lim: &Limits,
+    f: &FilterResolved,
+) -> Result<Vec<u64>, OperationError> {
+    let filt = wrap(f);
+    qs.get_be_txn().search(lim, &filt).map(|es| {
+        let mut v: Vec<u64> = es.iter().map(|e| e.get_id()).collect();
+        v.sort_unstable();
+        v
+    })
+}
+
+/// The real backend `exists`.
+pub fn be_exists(
+    qs: &mut QueryServerWriteTransaction<'_>,
+    lim: &Limits,
+    f: &FilterResolved,
+) -> Result<bool, OperationError> {
+    let filt = wrap(f);
+    qs.get_be_txn().exists(lim, &filt)
+}
+
+/// Ids of every stored entry, and of those on which `entry_match_no_index(f)` is true.
+pub fn be_truth(
+    qs: &mut QueryServerWriteTransaction<'_>,
+    f: &FilterResolved,
+) -> Result<(Vec<u64>, Vec<u64>), OperationError> {
+    let filt = wrap(f);
+    let all = crate::be::verif_all_entries(qs.get_be_txn())?;
+    let mut ids: Vec<u64> = all.iter().map(|e| e.get_id()).collect();
+    ids.sort_unstable();
+    let mut tru: Vec<u64> = all
+        .iter()
+        .filter(|e| e.entry_match_no_index(&filt))
+        .map(|e| e.get_id())
+        .collect();
+    tru.sort_unstable();
+    Ok((ids, tru))
+}
+
+/// The (attribute, index type) pairs currently in the backend's index metadata.
+pub fn be_index_layout(qs: &mut QueryServerWriteTransaction<'_>) -> Vec<(Attribute, IndexType)> {
+    qs.get_be_txn()
+        .get_idxmeta_ref()
+        .idxkeys
+        .keys()
+        .map(|k| (k.attr.clone(), k.itype.clone()))
+        .collect()
+}
+
+/// Replace the backend's index metadata and rebuild every index from the entries.
+pub fn be_set_index_layout(
+    qs: &mut QueryServerWriteTransaction<'_>,
+    keys: Vec<(Attribute, IndexType)>,
+) -> Result<(), OperationError> {
+    let be = qs.get_be_txn();
+    be.update_idxmeta(keys.into_iter().map(|(a, t)| IdxKey::new(a, t)).collect())?;
+    be.reindex(true)
+}
